@@ -43,10 +43,12 @@ def known_findings(ctx):
 
 
 def plan(quick):
-    """(family, N, K) instances of MC_Optimizer."""
+    """(family, N, K, grid) instances of MC_Optimizer; grid = the Tier constant (size of the configuration grids)."""
     if quick:
-        return [("coal", 4, 3), ("queue", 5, 3), ("buf", 5, 1), ("buf", 5, 2), ("bw", 4, 0), ("sblte", 3, 0)]
-    return [("coal", 5, 3), ("queue", 6, 3), ("queue", 5, 4), ("buf", 6, 0), ("buf", 7, 1), ("buf", 7, 2), ("bw", 5, 0), ("sblte", 4, 0)]
+        return [("coal", 4, 3, "quick"), ("coal", 7, 2, "quick"), ("queue", 5, 3, "quick"), ("buf", 5, 1, "quick"), ("buf", 5, 2, "quick"),
+                ("bw", 4, 0, "quick"), ("sblte", 3, 0, "quick")]
+    return [("coal", 5, 3, "thorough"), ("coal", 8, 2, "thorough"), ("queue", 6, 3, "quick"), ("queue", 5, 4, "thorough"),
+            ("buf", 5, 0, "thorough"), ("buf", 6, 1, "thorough"), ("buf", 7, 2, "thorough"), ("bw", 5, 0, "thorough"), ("sblte", 4, 0, "thorough")]
 
 
 def mc_cfg(ctx, family, n, k, tier, variant, invariants, tag):
@@ -56,9 +58,9 @@ def mc_cfg(ctx, family, n, k, tier, variant, invariants, tag):
     return cfg
 
 
-def mc_one(ctx, family, n, k):
+def mc_one(ctx, family, n, k, grid):
     tag = f"{family}_{n}_{k}"
-    cfg = mc_cfg(ctx, family, n, k, ctx.tier, "ideal", INV[family] + ["Emit"], tag)
+    cfg = mc_cfg(ctx, family, n, k, grid, "ideal", INV[family] + ["Emit"], tag)
     progs = ctx.path(f"prog_{tag}.ndjson")
     r = lib.tlc(ctx, MODULE_MC, cfg, tagged_out={"PROGRAM": progs}, timeout=1700, workers=2 if family in ("queue", "coal", "bw") else 1, heap="6g")
     return {"family": family, "N": n, "K": k, "progs": progs, "programs": r["counts"]["PROGRAM"], "distinct": r["distinct"],
